@@ -98,3 +98,26 @@ func EnumSmall(nNames, maxLen int, visit func(*Case)) {
 	}
 	rec(nil)
 }
+
+func GenDuring(t *rapid.T) *DuringCase {
+	c := &DuringCase{NName: rapid.IntRange(2, len(Names)).Draw(t, "nnames"), Handler: rapid.Bool().Draw(t, "handler")}
+	names := Names[:c.NName]
+	n := rapid.IntRange(1, 6).Draw(t, "nsetup")
+	for i := 0; i < n; i++ {
+		op := genOp(t, names, true)
+		if op.F == "nil" {
+			op.F = "fail"
+		}
+		if rapid.IntRange(0, 2).Draw(t, "failBias") == 0 {
+			op.F = "fail"
+		}
+		c.Setup = append(c.Setup, op)
+	}
+	c.At = rapid.IntRange(1, 4).Draw(t, "at")
+	c.W = Op{K: rapid.SampledFrom([]string{"reg", "reg", "clear", "cleartype"}).Draw(t, "wk")}
+	if c.W.K == "cleartype" {
+		c.W.From = rapid.SampledFrom(names).Draw(t, "wfrom")
+	}
+	c.DelayUs = rapid.SampledFrom([]int{0, 200, 2000}).Draw(t, "delay")
+	return c
+}
